@@ -155,7 +155,7 @@ __CPROVER_loop_invariant(__CPROVER_forall { unsigned a; (a < GV_MAXT) ==> ((1 <=
 __CPROVER_loop_invariant(__CPROVER_forall { unsigned b; (b < GV_MAXT) ==> ((i <= b && b < self->n) ==> self->data[b] == g_d0[b]) })
 __CPROVER_decreases(self->n - i)
 '''},
-        no_flags=nf, timeout=300, ghost_prefix='const %s gid = g_ident; const unsigned n0 = self->n;' % T,
+        no_flags=nf, timeout=300, ghost_prefix='const %s gid = g_ident; const unsigned n0 = self->n;' % T, fallback_unwind=GV_MAXT + 2,
         inst='T=%s, thread count <= %d (configuration bound); called from thread 0 (outside the parallel region)' % (T, GV_MAXT),
         says='reduce() returns the left fold of all per-thread slots with the merge function, however the updates were distributed, and resets slots 1..n-1 to the identity',
         trusted=['PerThreadStorage<T> modelled as an array of n <= 16 slots (red_local/red_remote in the prelude)']))
@@ -167,14 +167,15 @@ __CPROVER_ensures(__CPROVER_forall { unsigned m; (m < GV_MAXT) ==> (m < self->n 
 __CPROVER_assigns(__CPROVER_object_whole(self))''',
         prelude=[REDP], uses=USES, inline=[IDF],
         lower=[rx(r'data_\.size\(\)', 'self->n', 1, 1),
-               rx(r'\*data_\.getRemote\(i\) = IdFunc::operator\(\)\(\)', '*red_remote(self, i) = IDENT()', 1, 1)],
+               rx(r'data_\.getRemote\(', 'red_remote(self, ', 1, 1), rx(r'data_\.getLocal\(\)', 'red_local(self)', 0),
+               rx(r'IdFunc::operator\(\)\(\)', 'IDENT()', 1, 1)],
         loops={1: '''
 __CPROVER_assigns(i, __CPROVER_object_whole(self))
 __CPROVER_loop_invariant(i <= self->n && self->n <= GV_MAXT && self->n >= 1 && g_ident == gid && self->n == n0)
 __CPROVER_loop_invariant(__CPROVER_forall { unsigned a; (a < GV_MAXT) ==> (a < i ==> self->data[a] == g_ident) })
 __CPROVER_decreases(self->n - i)
 '''},
-        ghost_prefix='const %s gid = g_ident; const unsigned n0 = self->n;' % T,
+        ghost_prefix='const %s gid = g_ident; const unsigned n0 = self->n;' % T, fallback_unwind=GV_MAXT + 2,
         inst='T=%s, thread count <= %d' % (T, GV_MAXT),
         says='reset() restores the identity in every slot'))
 
